@@ -547,6 +547,10 @@ def sp_misc(rng, fname):
         return [rng.choice(['gname', 'a0', 'a1', 'zz']), gen_any(rng)][:rng.choice([1, 2, 2])]
     if fname == 'arrayNewSize':
         return [N(rng.choice([0, 1, 2, 3, 5, 17])), gen_any(rng)][:rng.choice([0, 1, 2, 2])]
+    if fname in ('systemIs', 'systemCompare'):
+        # the same value twice: under the alternating spelling one side is an int and the other a float
+        v = rng.choice([gen_num(rng), gen_num(rng), gen_array(rng, kind='nums'), gen_object(rng), gen_any(rng)])
+        return [v, v] if rng.random() < 0.7 else [v, gen_any(rng)]
     if fname in ('arrayExtend', 'arrayPush') and rng.random() < 0.3:
         return [gen_array(rng), {'same': 0}]
     raise KeyError(fname)
@@ -562,7 +566,7 @@ for _n in ('dataAggregate', 'dataCalculatedField', 'dataFilter', 'dataJoin', 'da
 for _n in ('arrayNew', 'mathMax', 'mathMin', 'objectNew', 'stringFromCharCode', 'schemaParse', 'schemaParseEx', 'schemaValidate',
            'schemaValidateTypeModel', 'jsonParse', 'jsonStringify', 'regexNew', 'regexMatch', 'regexMatchAll', 'regexSplit', 'regexReplace',
            'datetimeISOParse', 'datetimeNew', 'numberParseInt', 'numberParseFloat', 'mathRound', 'numberToFixed', 'systemPartial', 'arraySort',
-           'systemGlobalGet', 'systemGlobalSet', 'arrayNewSize', 'arrayExtend', 'arrayPush'):
+           'systemGlobalGet', 'systemGlobalSet', 'arrayNewSize', 'arrayExtend', 'arrayPush', 'systemIs', 'systemCompare'):
     SPECIAL[_n] = sp_misc
 
 # arguments that size an allocation / a loop: never let a generated number make the implementation allocate gigabytes or spin
